@@ -1,34 +1,63 @@
 /-
-Model of interface.py:select_all_from_table (and, up to the name, select_all_from_index /
-create_table_signature's lookup): the entry is found through a dictionary keyed by *name* built
-from `version.master_schema.master_schema_entries` (later entries overwrite earlier ones with the
-same name), its `root_page_number` is handed to `version.get_b_tree_root_page`, the leaf cells are
-aggregated.  The final `sorted(…, key=row_id)` of the rowid-table case is not modelled (the
-digest-keyed dictionary is returned in traversal order).  Names are compared as stored bytes (the
-code compares the decoded strings; decoding is injective on valid text).
+Model of interface.py:select_all_from_table / select_all_from_index (and the lookups of
+create_table_signature, carve_table, get_version_history_iterator, export_table_or_index_*): the
+entry is found through a dictionary keyed by *name* built from those entries of
+`version.master_schema.master_schema_entries` whose `row_type` is admitted (tables only, indexes
+only, or tables and indexes; later entries overwrite earlier ones with the same name), its
+`root_page_number` is handed to `version.get_b_tree_root_page`, the leaf cells are aggregated.
+
+The digest-keyed dictionary is returned in traversal order; the final
+`sorted(cells.values(), key=row_id)` of `select_all_from_table` for tables that are not WITHOUT ROWID
+is `sortedByRowid` (the flag `without_row_id` comes from the DDL text, Model/Schema.lean, and is not
+looked at here).  Names are compared as stored bytes (the code compares the decoded strings;
+decoding is injective on valid text).
 -/
 import SqliteDissect.Model.History
 
 namespace SqliteDissect.Model
 
-/-- `{entry.name: entry for entry in master_schema_entries}[name]` -/
-def entryByName (ms : MasterSchema) (name : List Nat) : Option SchemaRow :=
-  (ms.entries.filter fun e => e.name = name).getLast?
+/-- `{entry.name: entry for entry in master_schema_entries if entry.row_type in kinds}.get(name)` -/
+def entryByName (kinds : List String) (ms : MasterSchema) (name : List Nat) : Option SchemaRow :=
+  (ms.entries.filter fun e => kinds.contains e.rowType ∧ e.name = name).getLast?
 
-/-- `select_all_from_table(name, version)`: (number of cells, digest-keyed dictionary).  A root page
-number that is not a non-negative `int` leaves the modelled fragment. -/
+/-- the lookup of `select_all_from_table`, `create_table_signature`, `carve_table` -/
+def tableByName : MasterSchema → List Nat → Option SchemaRow := entryByName ["table"]
+
+/-- the lookup of `select_all_from_index` -/
+def indexByName : MasterSchema → List Nat → Option SchemaRow := entryByName ["index"]
+
+/-- the lookup of `get_version_history_iterator` and `export_table_or_index_version_history_to_*` -/
+def tableOrIndexByName : MasterSchema → List Nat → Option SchemaRow := entryByName ["table", "index"]
+
+/-- `aggregate_leaf_cells(version.get_b_tree_root_page(row.root_page_number))`: (number of cells,
+digest-keyed dictionary).  A root page number that is not a non-negative `int` leaves the modelled
+fragment. -/
+def aggregateOfRow (v : VersionIf) (frames : Nat) (row : SchemaRow) : Py (Nat × List (List Nat × Cell)) :=
+  match row.rootPage with
+  | .int r =>
+    if r < 0 then .error .outsideModel
+    else do
+      let t ← getBTreeRoot v frames r.toNat
+      let res := aggregateLeafCells t []
+      pure (res.1, res.2.1)
+  | _ => .error .outsideModel
+
+/-- `select_all_from_table(name, version)` before the final sort -/
 def selectAllFromTable (v : VersionIf) (frames : Nat) (ms : MasterSchema) (name : List Nat) :
     Py (Nat × List (List Nat × Cell)) :=
-  match entryByName ms name with
+  match tableByName ms name with
   | none => .error .keyError
-  | some row =>
-    match row.rootPage with
-    | .int r =>
-      if r < 0 then .error .outsideModel
-      else do
-        let t ← getBTreeRoot v frames r.toNat
-        let res := aggregateLeafCells t []
-        pure (res.1, res.2.1)
-    | _ => .error .outsideModel
+  | some row => aggregateOfRow v frames row
+
+/-- `select_all_from_index(name, version)` -/
+def selectAllFromIndex (v : VersionIf) (frames : Nat) (ms : MasterSchema) (name : List Nat) :
+    Py (Nat × List (List Nat × Cell)) :=
+  match indexByName ms name with
+  | none => .error .keyError
+  | some row => aggregateOfRow v frames row
+
+/-- `sorted(cells.values(), key=lambda cell: cell.row_id)` (stable) for cells that all carry a row id -/
+def sortedByRowid (cells : List Cell) : List Cell :=
+  cells.mergeSort fun a b => decide (a.rowid.getD 0 ≤ b.rowid.getD 0)
 
 end SqliteDissect.Model
